@@ -175,7 +175,12 @@ End ==
   /\ \A d \in devs : PrintT(<<"DEV", d>>)
   /\ UNCHANGED <<topicVars, kf, devs, aux>> /\ Next1
 
-Next == New \/ Pub \/ Recv \/ RCall \/ Hung \/ FCall \/ FPend \/ FRet \/ FCancel \/ Wake \/ Sub \/ Unsub \/ Clone \/ Conv \/ Close \/ HDrop \/ Quiesce \/ End
+\* the waker of an earlier poll (replaced by a re-poll with another waker) was invoked: it
+\* wakes nobody, so it does not count as waking the operation
+WakeStale == Is("wake_stale") /\ UNCHANGED <<topicVars, kf, devs, aux>> /\ Next1
+
+Next ==
+  \/ WakeStale \/ New \/ Pub \/ Recv \/ RCall \/ Hung \/ FCall \/ FPend \/ FRet \/ FCancel \/ Wake \/ Sub \/ Unsub \/ Clone \/ Conv \/ Close \/ HDrop \/ Quiesce \/ End
 Spec == Init /\ [][Next]_vars
 
 Accepted ==
